@@ -592,7 +592,7 @@ def check_reparse_live(case):
     except Exception as e:  # noqa
         o = exc_outcome(e)
         return FAIL('crash:reparse-live:%s:%s' % (case['kind'], o[1]), desc + '\nafter the text was replaced and parsed again: raised %s: %s at %s' % (o[1], o[3], o[4]), labels)
-    if not dense and got != want:
+    if got != want:
         return FAIL('reparse-live-differs:' + case['kind'], desc + '\nre-parsed live monitor: %r\nfresh monitor:          %r' % (got, want), labels)
     return PASS(F.n_temporal(f2) >= 1, labels)
 
